@@ -41,6 +41,9 @@ class Ctx(object):
         self._findings = [f for f in load_findings() if f.get("property") == pid]
         self._site_counts = {}
         os.makedirs(os.path.join(BUILD, "replay"), exist_ok=True)
+        import glob
+        for old in glob.glob(os.path.join(EVIDENCE, "replay", pid + "-*.json")):
+            os.remove(old)
 
     # -- TLC bookkeeping ---------------------------------------------------------------------
     def add_tlc(self, name, res, constants=None):
